@@ -159,6 +159,10 @@ pub struct C17Ctx<'a> {
     pub settled: bool,
     /// an injected read failure: (the side whose reads fail, the error text the transport reports)
     pub read_fault: Option<(Side, &'static str)>,
+    /// the run ended with nothing runnable and nothing in flight
+    pub quiescent: bool,
+    /// tasks still pending at that moment (before the diagnostic re-poll of every task)
+    pub unfinished: &'a [(String, Group)],
 }
 
 /// I/O error texts the simulated transport can hand to an endpoint; anything else surfaced as an I/O error was
@@ -273,6 +277,57 @@ pub fn check_c17(cx: &C17Ctx, out: &mut Outcome) {
                         }
                     }
                 }
+            }
+        }
+    }
+    // ---- a poll_reset watcher sees the peer's RST_STREAM: the stream was still open for the peer (its END_STREAM had
+    // not been delivered) when the reset arrived, so the watcher resolves with the peer's code
+    {
+        let ws = wire_streams(cx.tap);
+        let mut key_stream: HashMap<(Side, u32), u32> = HashMap::new();
+        for ev in cx.events {
+            if let Api::SentHead { stream, .. } = &ev.api {
+                if *stream != 0 {
+                    key_stream.entry((ev.side, ev.key)).or_insert(*stream);
+                }
+            }
+        }
+        for ev in cx.events {
+            let e = ev.side;
+            if !cx.h2_sides.contains(&e) || !matches!(&ev.api, Api::ConnOp { op } if op == "watch poll_reset") {
+                continue;
+            }
+            let sid = match key_stream.get(&(e, ev.key)) {
+                Some(s) => *s,
+                None => continue,
+            };
+            let w = match ws.get(&sid) {
+                Some(w) => w,
+                None => continue,
+            };
+            let i = crate::tapx::side_idx(e);
+            let p = 1 - i;
+            let rst = match w.rst[p].iter().filter_map(|r| r.1.map(|d| (d, r.2))).min() {
+                Some(r) => r,
+                None => continue,
+            };
+            let peer_ended_before = w.end[p].map(|x| x.1.map(|d| d <= rst.0).unwrap_or(false)).unwrap_or(false) || (sid % 2 == 0 && e == Side::Server);
+            let own_rst_before = w.rst[i].iter().any(|r| r.0 <= rst.0 + 2);
+            let conn_ended = cx.events.iter().any(|x| x.side == e && x.step <= rst.0 + 2 && matches!(&x.api, Api::ConnDone { .. }));
+            if peer_ended_before || own_rst_before || conn_ended || !cx.quiescent {
+                continue;
+            }
+            // (resolved by itself: not merely by the simulator's diagnostic re-poll at quiescence)
+            let task = format!("{}-resetwatch-{}", if e == Side::Client { "c" } else { "s" }, ev.key);
+            let resolved = cx.events.iter().any(|x| x.side == e && x.key == ev.key && matches!(&x.api, Api::PollReset { .. })) && !cx.unfinished.iter().any(|(n, _)| *n == task);
+            out.label("poll_reset-watcher-with-peer-reset");
+            if !resolved {
+                out.fail(
+                    "C17",
+                    "error/peer-reset-lost",
+                    "C17/peer-reset-never-reaches-poll_reset",
+                    format!("{}: the peer's RST_STREAM({}, code {:#x}) was delivered at step {} while a task was waiting in poll_reset on that stream (since step {}), but the wait never resolved", e.name(), sid, rst.1, rst.0, ev.step),
+                );
             }
         }
     }
